@@ -608,13 +608,13 @@ def interpolation_before_get(I, value, kind="basic"):
 def _ini_set(I, args, kwargs):
     parser, section, option = args[0], args[1], args[2]
     value = args[3] if len(args) > 3 else kwargs.get("value")
+    if isinstance(option, models.SymKey):
+        option = option.s
     if isinstance(parser, _cp.ConfigParser):
         if not issubclass(pytype(option), str):
             I.raise_(TypeError("option keys must be strings"))
         if not (parser._allow_no_value and value is None) and not issubclass(pytype(value), str):
             I.raise_(TypeError("option values must be strings"))
-    if contains_sym(option):
-        I.unsupported("symbolic INI option name")
     if value is not None:
         value = interpolation_before_set(I, value, _interp_kind(I, parser))
     if not section or section == parser.default_section:
